@@ -2,4 +2,4 @@
 From MptV Require Import C20.LayoutTypes C20.LayoutConv C20.Gen_Layout C20.LayoutModel C20.LayoutSpec.
 Require Import ExtrOcamlBasic.
 Require Import ZArith NArith.
-Extraction "c20_model.ml" mrun srun defaults kind_no spec_match spec_colour_strict default_of property_match color_parse color_print N.add N.mul Z.add Z.mul Z.opp.
+Extraction "c20_model.ml" mrun srun defaults kind_no spec_match spec_colour_strict default_of cxx_new property_match color_parse color_print N.add N.mul Z.add Z.mul Z.opp.
